@@ -17,6 +17,8 @@ func init() {
 }
 
 func c08(c *Ctx) {
+	c.FollowDelegates = true
+	defer func() { c.FollowDelegates = false }()
 	ax := c.Index("sdk/metric", aggPkg)
 	mx := c.Index("sdk/metric", sdkMetric)
 	if ax == nil || mx == nil {
